@@ -1,1 +1,847 @@
-//! (stub)
+//! Compiler-built corpus shared by the corpus complements of C04 / C05 / C06.
+//!
+//! Small C and C++ programs (embedded below) are compiled *and linked* at check time with
+//! gcc / clang under a list of configurations; the executable is cached under
+//! `<ctx.work>/corpus/<hash of compiler version + flags + sources>/` so that the two build
+//! profiles, the 16 shards and the three properties share one build.  External tools
+//! (`llvm-dwarfdump`, `readelf`) are run with a timeout and their text output is cached
+//! next to the executable.  Sections are extracted with the `object` crate.
+//!
+//! Nothing in here judges gimli: every failure of a compiler, linker or dump tool is
+//! reported to the caller, which turns it into `ctx.inconclusive`, never into a violation.
+//!
+//! The second half of the file holds the parser for `llvm-dwarfdump --eh-frame
+//! --debug-frame` text, which C05 (entry fields) and C06 (interpreted rows) both use.
+
+use crate::rt::{fnv, fnv_add, Ctx};
+use object::{Object, ObjectSection};
+use std::collections::HashMap;
+use std::path::{Path, PathBuf};
+use std::process::{Command, Stdio};
+use std::sync::Mutex;
+use std::time::{Duration, Instant};
+
+// ---------------------------------------------------------------- sources
+
+pub const UTIL_H: &str = r#"#ifndef UTIL_H
+#define UTIL_H
+struct point { int x, y; };
+static inline int clampi(int v, int lo, int hi)
+{
+    if (v < lo)
+        return lo;
+    if (v > hi)
+        return hi;
+    return v;
+}
+#define SQ(x) ((x) * (x))
+static inline int dist2(const struct point *a, const struct point *b)
+{
+    int dx = a->x - b->x;
+    int dy = a->y - b->y;
+    return SQ(dx) + SQ(dy);
+}
+#endif
+"#;
+
+pub const A_C: &str = r#"#include "inc/util.h"
+struct node { struct node *next; struct point p; union { int i; float f; } u; };
+enum color { RED, GREEN, BLUE };
+typedef int (*fn_t)(struct node *, enum color);
+extern int other(struct point *p);
+extern int classify(int v);
+volatile int sink;
+static inline int helper(int a) { int r = 0; { int k = a * 2; r += k; { int m = k + 1; r += m; } } return r; }
+int walk(struct node *n, enum color c)
+{
+    int s = 0;
+    for (; n; n = n->next) {
+        int t = n->p.x + helper(n->p.y);
+        if (c == RED) {
+            int q = t * 2;
+            s += q;
+        } else
+            s += t;
+        s = clampi(s, -1000, 1000);
+    }
+    return s;
+}
+int arr[10];
+static int fill(int n)
+{
+    int i, acc = 0;
+    for (i = 0; i < 10; i++) { arr[i] = i * n; acc += arr[i]; if (acc > 50) break; }
+    while (n-- > 0) acc ^= n;
+    return acc;
+}
+static void many_regs(long a, long b, long c, long d, long e, long f)
+{
+    long v[32]; int i;
+    for (i = 0; i < 32; i++) v[i] = a * i + b;
+    for (i = 0; i < 32; i++) sink += (int)(v[i] ^ c ^ d ^ e ^ f);
+}
+int unused_entry(int q)
+{
+    int i, r = q;
+    for (i = 0; i < q; i++)
+        r += classify(i) * helper(i);
+    return r;
+}
+int main(int argc, char **argv)
+{
+    struct node a = {0, {1,2}, {3}};
+    struct node b = {&a, {4,5}, {6}};
+    fn_t f = walk;
+    (void)argv;
+    many_regs(argc, 2, 3, 4, 5, 6);
+    return f(&b, argc > 1 ? RED : GREEN) + arr[argc & 7] + other(&a.p) + fill(argc) + classify(argc) + dist2(&a.p, &b.p);
+}
+"#;
+
+pub const B_C: &str = r#"#include "inc/util.h"
+struct box { struct point lo, hi; const char *name; long tags[4]; };
+struct empty_user { struct { int a; struct { short b, c; } in; } nest; void (*cb)(void); };
+static int area(const struct box *b)
+{
+    int w = b->hi.x - b->lo.x;
+    int h = b->hi.y - b->lo.y;
+    {
+        int a = w * h;
+        if (a < 0) { int n = -a; return n; }
+        return a;
+    }
+}
+int classify(int v)
+{
+    switch (v) {
+    case 0: return 10;
+    case 1: return 21;
+    case 2: return 33;
+    case 3: return 47;
+    case 4: return 59;
+    case 5: return 61;
+    case 9: return 2;
+    default: break;
+    }
+    return clampi(v, 0, 7);
+}
+static int rec(int n, int acc) { if (n <= 0) return acc; return rec(n - 1, acc + n) + 1; }
+int never_called(int z)
+{
+    int k = 0;
+    while (z > 0) { k += classify(z); z -= 2; }
+    return k;
+}
+int other(struct point *p)
+{
+    struct box b = { *p, { p->x + 3, p->y + 4 }, "b", {0} };
+    struct empty_user e = {{1,{2,3}},0};
+    struct point o = {0, 0};
+    return area(&b) + e.nest.in.b + rec(p->x, 0) + dist2(p, &o);
+}
+"#;
+
+/// Templates, inlining, virtual calls, destructors that run during unwinding, throw /
+/// catch: `.eh_frame` gets CIEs with "zPLR" augmentation and FDEs with LSDA pointers.
+pub const C_CPP: &str = r#"#include "inc/util.h"
+extern "C" int classify_cpp(int v);
+namespace geo {
+template <typename T> struct Vec2 {
+    T x, y;
+    Vec2(T a, T b) : x(a), y(b) {}
+    Vec2 operator+(const Vec2 &o) const { return Vec2(x + o.x, y + o.y); }
+    T dot(const Vec2 &o) const { return x * o.x + y * o.y; }
+};
+template <typename T, int N> struct Arr {
+    T v[N];
+    Arr() { for (int i = 0; i < N; i++) v[i] = T(); }
+    T &at(int i) { if (i < 0 || i >= N) throw i; return v[i]; }
+    int size() const { return N; }
+};
+template <typename T> T tmax(T a, T b) { return a > b ? a : b; }
+}
+struct Guard {
+    int *p;
+    explicit Guard(int *q) : p(q) { ++*p; }
+    ~Guard() { --*p; }
+};
+struct Base { virtual ~Base() {} virtual int f(int a) { return a + 1; } };
+struct Derived : Base { int k; explicit Derived(int q) : k(q) {} int f(int a) override { if (a > k) throw Derived(a); return a * k; } };
+struct Err { int code; const char *what; };
+static int depth;
+__attribute__((noinline)) static int risky(int n)
+{
+    Guard g(&depth);
+    geo::Arr<int, 4> a;
+    if (n > 2)
+        throw Err{n, "too big"};
+    a.at(n) = n * 3;
+    return a.at(n) + a.size();
+}
+__attribute__((noinline)) static int nested(int n)
+{
+    Guard g(&depth);
+    int r = 0;
+    try {
+        r += risky(n);
+        Guard h(&depth);
+        r += risky(n + 1);
+    } catch (const Err &e) {
+        r += e.code;
+        try { r += risky(-1); } catch (int i) { r -= i; }
+    }
+    return r;
+}
+static inline int inl(int a) { return clampi(a, 1, 9) * 2; }
+__attribute__((noinline)) static long big_frame(int n)
+{
+    volatile long buf[600];
+    long s = 0;
+    for (int i = 0; i < 600; i++) buf[i] = i * n;
+    for (int i = 0; i < 600; i += 7) s += buf[i];
+    return s;
+}
+int classify_cpp(int v)
+{
+    Derived d(v);
+    Base *b = &d;
+    int r = 0;
+    try { r = b->f(v + (v & 1)); } catch (const Derived &e) { r = e.k; } catch (...) { r = -1; }
+    return r + inl(v);
+}
+int main(int argc, char **)
+{
+    geo::Vec2<int> a(argc, 2), b(3, 4);
+    geo::Vec2<double> c(1.5, argc), d(0.5, 2.0);
+    int r = (a + b).dot(b) + (int)(c + d).dot(d);
+    r += geo::tmax(argc, 3) + (int)geo::tmax(2.5, (double)argc);
+    for (int i = 0; i < 5; i++) {
+        try { r += nested(i); } catch (const Err &e) { r ^= e.code; } catch (int x) { r += x; }
+    }
+    return r + classify_cpp(argc) + depth + (int)(big_frame(argc) & 1);
+}
+"#;
+
+// ---------------------------------------------------------------- configurations
+
+#[derive(Clone, Copy, Debug, PartialEq, Eq)]
+pub enum Lang {
+    C,
+    Cpp,
+}
+
+#[derive(Clone, Debug)]
+pub struct Config {
+    /// "gcc" or "clang" (the C++ driver is derived from it)
+    pub cc: &'static str,
+    pub lang: Lang,
+    pub flags: Vec<&'static str>,
+    /// 32-bit build: `-m32 -nostdlib -static -Wl,-e,main` (there is no 32-bit C runtime
+    /// on the machine; the C sources do not need one).  C only.
+    pub m32: bool,
+}
+
+impl Config {
+    pub fn driver(&self) -> &'static str {
+        match (self.cc, self.lang) {
+            ("gcc", Lang::C) => "gcc",
+            ("gcc", Lang::Cpp) => "g++",
+            (_, Lang::C) => "clang",
+            (_, Lang::Cpp) => "clang++",
+        }
+    }
+    pub fn label(&self) -> String {
+        format!("{}{} {} [{}]", self.driver(), if self.m32 { " -m32" } else { "" }, self.flags.join(" "), if self.lang == Lang::C { "a.c b.c" } else { "c.cpp" })
+    }
+    pub fn has(&self, flag: &str) -> bool {
+        self.flags.iter().any(|f| *f == flag)
+    }
+    fn all_args(&self) -> Vec<String> {
+        let mut v: Vec<String> = vec!["-g".into()];
+        v.extend(self.flags.iter().map(|s| s.to_string()));
+        if self.m32 {
+            for f in ["-m32", "-nostdlib", "-static", "-fno-stack-protector", "-Wl,-e,main", "-Wl,--eh-frame-hdr"] {
+                v.push(f.into());
+            }
+        }
+        match self.lang {
+            Lang::C => {
+                v.push("a.c".into());
+                v.push("b.c".into());
+            }
+            Lang::Cpp => v.push("c.cpp".into()),
+        }
+        v.push("-o".into());
+        v.push("prog".into());
+        v
+    }
+}
+
+fn cfg(cc: &'static str, lang: Lang, flags: &[&'static str]) -> Config {
+    Config { cc, lang, flags: flags.to_vec(), m32: false }
+}
+
+const NO_EH: &str = "-fno-asynchronous-unwind-tables";
+
+/// The quick tier uses the first four configurations; the thorough tier all of them.
+/// The indices are the case indices of the `corpus` stream of each property.
+pub fn configs(quick: bool) -> Vec<Config> {
+    use Lang::*;
+    let mut v = vec![
+        // .eh_frame with "zPLR" CIEs, LSDA pointers; DWARF 5 line table of gas/gcc
+        cfg("gcc", Cpp, &["-gdwarf-5", "-O2"]),
+        // .debug_frame (CIE version 4) next to the runtime's .eh_frame; clang's DWARF 5 line
+        // tables (MD5, line_strp forms)
+        cfg("clang", C, &["-gdwarf-5", "-O2", NO_EH]),
+        // 32-bit: address size 4, data alignment -4, i386 register numbering
+        Config { cc: "gcc", lang: C, flags: vec!["-gdwarf-3", "-O2"], m32: true },
+        // v4 line table, -O0 prologue_end rows, one sequence per function; "zPLR" CIE of clang
+        cfg("clang", Cpp, &["-gdwarf-4", "-O0"]),
+    ];
+    if quick {
+        return v;
+    }
+    for cc in ["gcc", "clang"] {
+        for ver in ["-gdwarf-2", "-gdwarf-3", "-gdwarf-4", "-gdwarf-5"] {
+            for opt in ["-O0", "-O2"] {
+                for lang in [C, Cpp] {
+                    v.push(cfg(cc, lang, &[ver, opt]));
+                }
+            }
+        }
+    }
+    // -gno-as-loc-support: gcc writes .debug_line itself (in the 64-bit format under
+    // -gdwarf64; gas 2.40 only writes 32-bit line tables)
+    v.push(cfg("gcc", C, &["-gdwarf-4", "-gdwarf64", "-O1", "-gno-as-loc-support"]));
+    v.push(cfg("gcc", Cpp, &["-gdwarf-5", "-gdwarf64", "-O2", "-gno-as-loc-support"]));
+    v.push(cfg("gcc", C, &["-gdwarf-4", "-O1", "-fdebug-types-section"]));
+    v.push(cfg("gcc", Cpp, &["-gdwarf-5", "-O1", "-fdebug-types-section"]));
+    v.push(cfg("clang", Cpp, &["-gdwarf-4", "-O1", "-fdebug-types-section"]));
+    v.push(cfg("clang", C, &["-gdwarf-5", "-O1", "-fdebug-types-section"]));
+    // .debug_frame
+    v.push(cfg("gcc", C, &["-gdwarf-4", "-O2", NO_EH]));
+    v.push(cfg("gcc", C, &["-gdwarf-2", "-O0", NO_EH]));
+    v.push(cfg("clang", C, &["-gdwarf-2", "-O0", NO_EH]));
+    v.push(cfg("clang", C, &["-gdwarf-4", "-O1", NO_EH]));
+    // 32-bit
+    v.push(Config { cc: "clang", lang: C, flags: vec!["-gdwarf-5", "-O1", NO_EH], m32: true });
+    v.push(Config { cc: "clang", lang: C, flags: vec!["-gdwarf-4", "-O2"], m32: true });
+    v.push(Config { cc: "gcc", lang: C, flags: vec!["-gdwarf-5", "-O0", NO_EH], m32: true });
+    v.push(Config { cc: "gcc", lang: C, flags: vec!["-gdwarf-2", "-O1", "-fomit-frame-pointer"], m32: true });
+    // discarded sections: the linker leaves tombstoned sequences / drops FDEs
+    v.push(cfg("gcc", C, &["-gdwarf-4", "-O1", "-ffunction-sections", "-Wl,--gc-sections"]));
+    v.push(cfg("clang", C, &["-gdwarf-5", "-O2", "-ffunction-sections", "-Wl,--gc-sections"]));
+    // frame pointers / no red zone / column info off: different CFI and line programs
+    v.push(cfg("gcc", Cpp, &["-gdwarf-4", "-O1", "-fno-omit-frame-pointer"]));
+    v.push(cfg("clang", Cpp, &["-gdwarf-4", "-O2", "-fno-omit-frame-pointer", "-gno-column-info"]));
+    v.push(cfg("gcc", C, &["-gdwarf-5", "-Os", "-fno-inline"]));
+    v.push(cfg("gcc", Cpp, &["-gdwarf-3", "-O2", "-gno-as-loc-support"]));
+    v.push(cfg("gcc", C, &["-gdwarf-5", "-gdwarf64", "-O0"]));
+    v.push(cfg("clang", Cpp, &["-gdwarf-5", "-O3", "-fdebug-info-for-profiling"]));
+    v
+}
+
+// ---------------------------------------------------------------- tool runner
+
+/// Run `tool args..` in `cwd` with stdout and stderr redirected to files; kill it after
+/// `timeout`.  `Err` carries a short reason (tool missing, non-zero exit, timeout).
+pub fn run_tool(tool: &str, args: &[String], cwd: &Path, stdout_to: &Path, timeout: Duration) -> Result<(), String> {
+    let out = std::fs::File::create(stdout_to).map_err(|e| format!("{}: {e}", stdout_to.display()))?;
+    let err_path = stdout_to.with_extension("stderr");
+    let err = std::fs::File::create(&err_path).map_err(|e| format!("{}: {e}", err_path.display()))?;
+    let mut child = Command::new(tool)
+        .args(args)
+        .current_dir(cwd)
+        .stdin(Stdio::null())
+        .stdout(Stdio::from(out))
+        .stderr(Stdio::from(err))
+        .spawn()
+        .map_err(|e| format!("{tool}: cannot start: {e}"))?;
+    let t0 = Instant::now();
+    loop {
+        match child.try_wait() {
+            Ok(Some(st)) => {
+                if st.success() {
+                    let _ = std::fs::remove_file(&err_path);
+                    return Ok(());
+                }
+                let msg: String = std::fs::read_to_string(&err_path).unwrap_or_default().chars().take(300).collect();
+                return Err(format!("{tool}: exit {:?}: {}", st.code(), msg.replace('\n', " | ")));
+            }
+            Ok(None) => {
+                if t0.elapsed() > timeout {
+                    let _ = child.kill();
+                    let _ = child.wait();
+                    return Err(format!("{tool}: timeout after {} s", timeout.as_secs()));
+                }
+                std::thread::sleep(Duration::from_millis(5));
+            }
+            Err(e) => return Err(format!("{tool}: wait: {e}")),
+        }
+    }
+}
+
+static VERSIONS: Mutex<Option<HashMap<String, String>>> = Mutex::new(None);
+
+/// First line of `<tool> --version` (part of the cache key), "?" when the tool is missing.
+pub fn tool_version(tool: &str) -> String {
+    if let Ok(mut g) = VERSIONS.lock() {
+        let m = g.get_or_insert_with(HashMap::new);
+        if let Some(v) = m.get(tool) {
+            return v.clone();
+        }
+        let v = Command::new(tool)
+            .arg("--version")
+            .stdin(Stdio::null())
+            .stderr(Stdio::null())
+            .output()
+            .ok()
+            .map(|o| String::from_utf8_lossy(&o.stdout).lines().next().unwrap_or("").to_string())
+            .unwrap_or_else(|| "?".to_string());
+        m.insert(tool.to_string(), v.clone());
+        return v;
+    }
+    "?".to_string()
+}
+
+// ---------------------------------------------------------------- build with cache
+
+fn config_hash(c: &Config) -> u64 {
+    let mut h = fnv(b"gv-corpus-v3");
+    h = fnv_add(h, c.driver().as_bytes());
+    h = fnv_add(h, tool_version(c.driver()).as_bytes());
+    for a in c.all_args() {
+        h = fnv_add(h, a.as_bytes());
+    }
+    h = fnv_add(h, UTIL_H.as_bytes());
+    match c.lang {
+        Lang::C => {
+            h = fnv_add(h, A_C.as_bytes());
+            h = fnv_add(h, B_C.as_bytes());
+        }
+        Lang::Cpp => h = fnv_add(h, C_CPP.as_bytes()),
+    }
+    h
+}
+
+fn build_in(dir: &Path, c: &Config) -> Result<(), String> {
+    let _ = std::fs::remove_dir_all(dir);
+    std::fs::create_dir_all(dir.join("inc")).map_err(|e| format!("mkdir {}: {e}", dir.display()))?;
+    let w = |name: &str, text: &str| std::fs::write(dir.join(name), text).map_err(|e| format!("write {name}: {e}"));
+    w("inc/util.h", UTIL_H)?;
+    match c.lang {
+        Lang::C => {
+            w("a.c", A_C)?;
+            w("b.c", B_C)?;
+        }
+        Lang::Cpp => w("c.cpp", C_CPP)?,
+    }
+    run_tool(c.driver(), &c.all_args(), dir, &dir.join("build.log"), Duration::from_secs(180))?;
+    if !dir.join("prog").is_file() {
+        return Err("no executable produced".into());
+    }
+    w("ok", &c.label())?;
+    Ok(())
+}
+
+/// Compile + link configuration `c` (or find it in the cache); returns the path of the
+/// executable.  `Err` = the toolchain could not produce it (the caller reports it as
+/// inconclusive).
+pub fn build_config(work: &Path, c: &Config) -> Result<PathBuf, String> {
+    let root = work.join("corpus");
+    std::fs::create_dir_all(&root).map_err(|e| format!("mkdir {}: {e}", root.display()))?;
+    let key = format!("{:016x}", config_hash(c));
+    let dir = root.join(&key);
+    let prog = dir.join("prog");
+    let ready = |d: &Path| d.join("ok").is_file() && d.join("prog").is_file();
+    if ready(&dir) {
+        return Ok(prog);
+    }
+    // One builder at a time per configuration: the lock is a directory (atomic create).
+    // A lock older than 200 s is considered stale; a waiter gives up after 240 s and
+    // builds on its own.
+    let lock = root.join(format!("{key}.lock"));
+    let t0 = Instant::now();
+    let mut have_lock = false;
+    loop {
+        if ready(&dir) {
+            return Ok(prog);
+        }
+        match std::fs::create_dir(&lock) {
+            Ok(()) => {
+                have_lock = true;
+                break;
+            }
+            Err(_) => {
+                let stale = std::fs::metadata(&lock).and_then(|m| m.modified()).ok().and_then(|m| m.elapsed().ok()).map(|d| d > Duration::from_secs(200)).unwrap_or(false);
+                if stale || t0.elapsed() > Duration::from_secs(240) {
+                    break;
+                }
+                std::thread::sleep(Duration::from_millis(25));
+            }
+        }
+    }
+    let r = if ready(&dir) {
+        Ok(())
+    } else if have_lock {
+        build_in(&dir, c)
+    } else {
+        // no lock: build privately, then publish by rename (may lose the race, fine)
+        let tmp = root.join(format!("{key}.tmp{}", std::process::id()));
+        let r = build_in(&tmp, c);
+        if r.is_ok() && !ready(&dir) {
+            let _ = std::fs::remove_dir_all(&dir);
+            let _ = std::fs::rename(&tmp, &dir);
+        }
+        let _ = std::fs::remove_dir_all(&tmp);
+        r
+    };
+    if have_lock {
+        let _ = std::fs::remove_dir(&lock);
+    }
+    r.map_err(|e| format!("{}: {e}", c.label()))?;
+    if ready(&dir) {
+        Ok(prog)
+    } else {
+        Err(format!("{}: build directory vanished", c.label()))
+    }
+}
+
+/// `build_config` with the failure recorded as inconclusive.
+pub fn build(ctx: &mut Ctx, c: &Config) -> Option<PathBuf> {
+    match build_config(&ctx.work.clone(), c) {
+        Ok(p) => Some(p),
+        Err(e) => {
+            ctx.inconclusive(&format!("corpus: build failed: {e}"));
+            None
+        }
+    }
+}
+
+/// Text output of `tool args.. prog`, cached as `<dir of prog>/<key>.txt`.
+pub fn dump_text(prog: &Path, key: &str, tool: &str, args: &[&str]) -> Result<String, String> {
+    let dir = prog.parent().ok_or("no parent directory")?;
+    let path = dir.join(format!("{key}.txt"));
+    if !path.is_file() {
+        let tmp = dir.join(format!("{key}.tmp{}", std::process::id()));
+        let mut a: Vec<String> = args.iter().map(|s| s.to_string()).collect();
+        a.push("prog".into());
+        let r = run_tool(tool, &a, dir, &tmp, Duration::from_secs(60));
+        if let Err(e) = r {
+            let _ = std::fs::remove_file(&tmp);
+            return Err(e);
+        }
+        std::fs::rename(&tmp, &path).map_err(|e| format!("rename: {e}"))?;
+    }
+    let bytes = std::fs::read(&path).map_err(|e| format!("{}: {e}", path.display()))?;
+    Ok(String::from_utf8_lossy(&bytes).to_string())
+}
+
+/// `dump_text` with the failure recorded as inconclusive.
+pub fn dump(ctx: &mut Ctx, prog: &Path, key: &str, tool: &str, args: &[&str]) -> Option<String> {
+    match dump_text(prog, key, tool, args) {
+        Ok(t) => Some(t),
+        Err(e) => {
+            ctx.inconclusive(&format!("corpus: {tool} {}: {e}", args.join(" ")));
+            None
+        }
+    }
+}
+
+// ---------------------------------------------------------------- sections
+
+#[derive(Clone, Debug)]
+pub struct Sec {
+    pub name: String,
+    pub addr: u64,
+    pub data: Vec<u8>,
+}
+
+#[derive(Clone, Debug)]
+pub struct Obj {
+    pub is64: bool,
+    pub le: bool,
+    pub sections: Vec<Sec>,
+}
+
+static EMPTY: &[u8] = &[];
+
+impl Obj {
+    pub fn load(path: &Path) -> Result<Obj, String> {
+        let data = std::fs::read(path).map_err(|e| format!("{}: {e}", path.display()))?;
+        let file = object::File::parse(&*data).map_err(|e| format!("object: {e}"))?;
+        let mut sections = vec![];
+        for s in file.sections() {
+            let Ok(name) = s.name() else { continue };
+            if name.is_empty() {
+                continue;
+            }
+            // uncompressed_data would also handle SHF_COMPRESSED; the corpus is not compressed
+            let Ok(d) = s.data() else { continue };
+            sections.push(Sec { name: name.to_string(), addr: s.address(), data: d.to_vec() });
+        }
+        Ok(Obj { is64: file.is_64(), le: file.is_little_endian(), sections })
+    }
+    pub fn sec(&self, name: &str) -> Option<&Sec> {
+        self.sections.iter().find(|s| s.name == name)
+    }
+    pub fn data(&self, name: &str) -> &[u8] {
+        self.sec(name).map(|s| &s.data[..]).unwrap_or(EMPTY)
+    }
+    pub fn addr(&self, name: &str) -> u64 {
+        self.sec(name).map(|s| s.addr).unwrap_or(0)
+    }
+    pub fn address_size(&self) -> u8 {
+        if self.is64 {
+            8
+        } else {
+            4
+        }
+    }
+    pub fn endian(&self) -> gimli::RunTimeEndian {
+        if self.le {
+            gimli::RunTimeEndian::Little
+        } else {
+            gimli::RunTimeEndian::Big
+        }
+    }
+}
+
+pub fn load_obj(ctx: &mut Ctx, prog: &Path) -> Option<Obj> {
+    match Obj::load(prog) {
+        Ok(o) => Some(o),
+        Err(e) => {
+            ctx.inconclusive(&format!("corpus: cannot read executable: {e}"));
+            None
+        }
+    }
+}
+
+// ---------------------------------------------------------------- small text helpers
+
+pub fn parse_hex(s: &str) -> Option<u64> {
+    let s = s.trim();
+    let s = s.strip_prefix("0x").unwrap_or(s);
+    if s.is_empty() || s.len() > 16 {
+        return None;
+    }
+    u64::from_str_radix(s, 16).ok()
+}
+
+/// Value after `key` up to the end of the line, trimmed.
+pub fn after<'a>(line: &'a str, key: &str) -> Option<&'a str> {
+    let i = line.find(key)?;
+    Some(line[i + key.len()..].trim())
+}
+
+// ---------------------------------------------------------------- llvm-dwarfdump --eh-frame / --debug-frame
+
+#[derive(Clone, Debug, PartialEq, Eq, Default)]
+pub struct LCie {
+    pub offset: u64,
+    pub length: u64,
+    pub id: u64,
+    pub fmt64: bool,
+    pub version: u64,
+    pub augmentation: String,
+    pub address_size: Option<u64>,
+    pub segment_size: Option<u64>,
+    pub code_align: u64,
+    pub data_align: i64,
+    pub ra_reg: u64,
+    pub personality: Option<u64>,
+    pub aug_data: Option<Vec<u8>>,
+    pub instructions: Vec<String>,
+    /// the "CFA=...: reg=..." line
+    pub row: Option<String>,
+}
+
+#[derive(Clone, Debug, PartialEq, Eq, Default)]
+pub struct LFde {
+    pub offset: u64,
+    pub length: u64,
+    pub cie_pointer: u64,
+    /// `None` when llvm printed `<invalid offset>`
+    pub cie: Option<u64>,
+    pub pc_begin: u64,
+    pub pc_end: u64,
+    pub fmt64: bool,
+    pub lsda: Option<u64>,
+    pub instructions: Vec<String>,
+    /// (address, text after "0x...: ")
+    pub rows: Vec<(u64, String)>,
+}
+
+#[derive(Clone, Debug, PartialEq, Eq)]
+pub enum LEntry {
+    Cie(LCie),
+    Fde(LFde),
+}
+
+impl LEntry {
+    pub fn offset(&self) -> u64 {
+        match self {
+            LEntry::Cie(c) => c.offset,
+            LEntry::Fde(f) => f.offset,
+        }
+    }
+}
+
+#[derive(Clone, Debug, Default)]
+pub struct LFrames {
+    pub debug_frame: Vec<LEntry>,
+    pub eh_frame: Vec<LEntry>,
+}
+
+/// Parse `llvm-dwarfdump --eh-frame --debug-frame` (LLVM 14 layout).
+pub fn parse_llvm_frames(text: &str) -> Result<LFrames, String> {
+    let mut out = LFrames::default();
+    let mut cur: Option<&mut Vec<LEntry>> = None;
+    for line in text.lines() {
+        if line.starts_with(".debug_frame contents:") {
+            cur = Some(&mut out.debug_frame);
+            continue;
+        }
+        if line.starts_with(".eh_frame contents:") {
+            cur = Some(&mut out.eh_frame);
+            continue;
+        }
+        let Some(list) = cur.as_deref_mut() else { continue };
+        if line.trim().is_empty() {
+            continue;
+        }
+        let first = line.as_bytes()[0];
+        if first.is_ascii_hexdigit() {
+            // "<offset> <length> <id> CIE" or "<offset> <length> <cieptr> FDE cie=<x> pc=<a>...<b>"
+            let toks: Vec<&str> = line.split_whitespace().collect();
+            if toks.len() >= 2 && toks[1] == "ZERO" {
+                continue;
+            }
+            if toks.len() < 4 {
+                return Err(format!("unrecognised entry line: {line}"));
+            }
+            let offset = parse_hex(toks[0]).ok_or_else(|| format!("offset: {line}"))?;
+            let length = parse_hex(toks[1]).ok_or_else(|| format!("length: {line}"))?;
+            let id = parse_hex(toks[2]).ok_or_else(|| format!("id: {line}"))?;
+            match toks[3] {
+                "CIE" => list.push(LEntry::Cie(LCie { offset, length, id, ..Default::default() })),
+                "FDE" => {
+                    if toks.len() < 6 {
+                        return Err(format!("short FDE line: {line}"));
+                    }
+                    let cie = toks[4].strip_prefix("cie=").ok_or_else(|| format!("cie=: {line}"))?;
+                    let pc = toks[5].strip_prefix("pc=").ok_or_else(|| format!("pc=: {line}"))?;
+                    let (a, b) = pc.split_once("...").ok_or_else(|| format!("pc range: {line}"))?;
+                    list.push(LEntry::Fde(LFde {
+                        offset,
+                        length,
+                        cie_pointer: id,
+                        cie: parse_hex(cie),
+                        pc_begin: parse_hex(a).ok_or_else(|| format!("pc begin: {line}"))?,
+                        pc_end: parse_hex(b).ok_or_else(|| format!("pc end: {line}"))?,
+                        ..Default::default()
+                    }));
+                }
+                _ => return Err(format!("unrecognised entry kind: {line}")),
+            }
+            continue;
+        }
+        let t = line.trim();
+        let Some(last) = list.last_mut() else {
+            return Err(format!("text before the first entry: {line}"));
+        };
+        let num = |key: &str| -> Result<Option<u64>, String> {
+            match after(t, key) {
+                Some(v) if t.starts_with(key) => v.parse::<u64>().map(Some).map_err(|_| format!("number: {line}")),
+                _ => Ok(None),
+            }
+        };
+        if t.starts_with("Format:") {
+            let f64 = t.ends_with("DWARF64");
+            match last {
+                LEntry::Cie(c) => c.fmt64 = f64,
+                LEntry::Fde(f) => f.fmt64 = f64,
+            }
+            continue;
+        }
+        if t.starts_with("DW_CFA_") {
+            match last {
+                LEntry::Cie(c) => c.instructions.push(t.to_string()),
+                LEntry::Fde(f) => f.instructions.push(t.to_string()),
+            }
+            continue;
+        }
+        match last {
+            LEntry::Cie(c) => {
+                if let Some(v) = num("Version:")? {
+                    c.version = v;
+                } else if t.starts_with("Augmentation:") {
+                    let v = after(t, "Augmentation:").unwrap_or("");
+                    c.augmentation = v.trim_matches('"').to_string();
+                } else if let Some(v) = num("Address size:")? {
+                    c.address_size = Some(v);
+                } else if let Some(v) = num("Segment desc size:")? {
+                    c.segment_size = Some(v);
+                } else if let Some(v) = num("Code alignment factor:")? {
+                    c.code_align = v;
+                } else if t.starts_with("Data alignment factor:") {
+                    c.data_align = after(t, "Data alignment factor:").unwrap_or("").parse::<i64>().map_err(|_| format!("data alignment: {line}"))?;
+                } else if let Some(v) = num("Return address column:")? {
+                    c.ra_reg = v;
+                } else if t.starts_with("Personality Address:") {
+                    c.personality = Some(parse_hex(after(t, "Personality Address:").unwrap_or("")).ok_or_else(|| format!("personality: {line}"))?);
+                } else if t.starts_with("Augmentation data:") {
+                    let mut b = vec![];
+                    for x in after(t, "Augmentation data:").unwrap_or("").split_whitespace() {
+                        b.push(u8::from_str_radix(x, 16).map_err(|_| format!("augmentation data: {line}"))?);
+                    }
+                    c.aug_data = Some(b);
+                } else if t.starts_with("CFA=") {
+                    c.row = Some(t.to_string());
+                } else {
+                    return Err(format!("unrecognised CIE line: {line}"));
+                }
+            }
+            LEntry::Fde(f) => {
+                if t.starts_with("LSDA Address:") {
+                    f.lsda = Some(parse_hex(after(t, "LSDA Address:").unwrap_or("")).ok_or_else(|| format!("lsda: {line}"))?);
+                } else if t.starts_with("0x") {
+                    let (a, rest) = t.split_once(": ").ok_or_else(|| format!("row: {line}"))?;
+                    f.rows.push((parse_hex(a).ok_or_else(|| format!("row address: {line}"))?, rest.to_string()));
+                } else {
+                    return Err(format!("unrecognised FDE line: {line}"));
+                }
+            }
+        }
+    }
+    Ok(out)
+}
+
+// ---------------------------------------------------------------- register names
+
+/// DWARF register number of a register name as printed by readelf (lower case) or
+/// llvm-dwarfdump (upper case) for x86-64 / i386.  Also accepts `rN` / `regN`.
+pub fn reg_number(name: &str, is64: bool) -> Option<u16> {
+    let n = name.to_ascii_lowercase();
+    const X64: [&str; 17] = ["rax", "rdx", "rcx", "rbx", "rsi", "rdi", "rbp", "rsp", "r8", "r9", "r10", "r11", "r12", "r13", "r14", "r15", "rip"];
+    const X86: [&str; 9] = ["eax", "ecx", "edx", "ebx", "esp", "ebp", "esi", "edi", "eip"];
+    let table: &[&str] = if is64 { &X64 } else { &X86 };
+    if let Some(i) = table.iter().position(|t| *t == n) {
+        return Some(i as u16);
+    }
+    if is64 {
+        if let Some(k) = n.strip_prefix("xmm").and_then(|k| k.parse::<u16>().ok()) {
+            if k < 16 {
+                return Some(17 + k);
+            }
+        }
+    }
+    if let Some(k) = n.strip_prefix("reg").and_then(|k| k.parse::<u16>().ok()) {
+        return Some(k);
+    }
+    if let Some(k) = n.strip_prefix('r').and_then(|k| k.parse::<u16>().ok()) {
+        // only reached for names that are not architectural (x86-64 r8..r15 matched above)
+        return Some(k);
+    }
+    None
+}
